@@ -3,7 +3,8 @@ from common import T_COMMON
 CFG = dict(
     theorems=["splat_roundtrip_count_order", "splat_record_bits_exact", "splat_position_exact", "splat_position_exact_f32",
               "splat_scale_log_f32_exp", "splat_scale_exact",
-              "splat_color_step", "splat_color_step_fdc", "splat_opacity_step", "splat_rotation_step", "splat_rotation_wraps"],
+              "splat_color_step", "splat_color_step_fdc", "splat_opacity_step", "splat_rotation_step", "splat_rotation_wraps",
+              "sign_extend_24", "spz_fixed_point_value", "spz_decode_refEncode", "spz_lengths"],
     streams=[dict(name="c15", n=dict(quick=150, thorough=6000),
                   ulps={"c15.splat.readlog": (4, 0.0)})],
     trusted=T_COMMON + ["exp/log: the model treats them as opaque functions; the driver takes exp from a table of the implementation's own math.Exp values and compares log-derived outputs within 4 ulps of libm",
